@@ -79,7 +79,7 @@ package intermediate
 //@   modifies a.flowKeyRecordMap[*]
 
 //@ // retries: a held flow that is not ready was retried at most MaxRetries times (C07: bounded retry, then dropped)
-//@ pure aggRetry(a *AggregationProcess) bool = forall k: has(a.flowKeyRecordMap, k) ==> a.flowKeyRecordMap[k].waitForReadyToSendRetries <= MaxRetries
+//@ pure aggRetry(a *AggregationProcess) bool = MaxRetries >= 0 && forall k: has(a.flowKeyRecordMap, k) ==> a.flowKeyRecordMap[k].waitForReadyToSendRetries <= MaxRetries
 //@ pure itemOf(a *AggregationProcess, k int) *ItemToExpire = a.flowKeyRecordMap[k].PriorityQueueItem
 
 //@ func (a *AggregationProcess) ForAllExpiredFlowRecordsDo(callback) (err)
@@ -95,6 +95,7 @@ package intermediate
 //@   callpre functype:intermediate.FlowKeyRecordMapCallBack earliest: forall i in [0, len(a.expirePriorityQueue)): minExp(pqItem) <= minExp(a.expirePriorityQueue[i])
 //@   callpre functype:intermediate.FlowKeyRecordMapCallBack held: has(a.flowKeyRecordMap, mapkey(key)) && a.flowKeyRecordMap[mapkey(key)] == record
 //@   modifies *
+//@   replay expiry
 //@   loop 1 invariant inv:  aggInv(a) && aggRetry(a) && a.mutex.held && currTime == $lastNow
 //@   loop 1 invariant nonew: forall k: has(a.flowKeyRecordMap, k) ==> old(has(a.flowKeyRecordMap, k)) && a.flowKeyRecordMap[k] == old(a.flowKeyRecordMap[k])
 //@   loop 1 invariant same: forall k: has(a.flowKeyRecordMap, k) ==> itemOf(a, k) == old(itemOf(a, k)) && a.flowKeyRecordMap[k].ReadyToSend == old(a.flowKeyRecordMap[k].ReadyToSend)
@@ -110,6 +111,7 @@ package intermediate
 //@   ensures  idle: len(a.expirePriorityQueue) == 0 ==> r == (a.activeExpiryTimeout < a.inactiveExpiryTimeout ? a.activeExpiryTimeout : a.inactiveExpiryTimeout)
 //@   ensures  lock: !a.mutex.held
 //@   modifies a.mutex.held, $lastNow
+//@   replay expiry
 
 // ---------------------------------------------------------------------------
 // Correlation predicates (C07)
@@ -120,6 +122,16 @@ package intermediate
 //@ pure hasName(r entities.Record, name string) bool = exists j in [0, len(recList(r))): ie(recList(r)[j]).Name == name
 //@ // u8Of / strOf: value of the first element called name (when there is one, of that kind)
 //@ pure isFirst(r entities.Record, name string, j int) bool = firstNamed(recList(r), name, j)
+
+//@ pure u8v(e entities.InfoElementWithValue) int = e.(*Unsigned8InfoElement).value
+//@ // corrReq: inter-node flow that was neither denied at egress (drop/reject) nor rejected at ingress
+//@ pure corrReq(ft int, r entities.Record) bool = ft == FlowTypeInterNode
+//@     && (forall j in [0, len(recList(r))): isFirst(r, "egressNetworkPolicyRuleAction", j) ==> u8v(recList(r)[j]) != NetworkPolicyRuleActionDrop && u8v(recList(r)[j]) != NetworkPolicyRuleActionReject)
+//@     && (forall j in [0, len(recList(r))): isFirst(r, "ingressNetworkPolicyRuleAction", j) ==> u8v(recList(r)[j]) != NetworkPolicyRuleActionReject)
+//@ // flowTypeIs: ft is the value of the record's first flowType element, 0 when it has none
+//@ pure flowTypeIs(r entities.Record, ft int) bool = (forall j in [0, len(recList(r))): isFirst(r, "flowType", j) ==> u8v(recList(r)[j]) == ft)
+//@     && ((forall j in [0, len(recList(r))): ie(recList(r)[j]).Name != "flowType") ==> ft == 0)
+//@ pure sameNode(r1 entities.Record, r2 entities.Record) bool = (fromSrc(r1) && fromSrc(r2)) || (fromDst(r1) && fromDst(r2))
 
 //@ func isCorrelationRequired(flowType, record) (r)
 //@   requires rec: recNN(record)
@@ -134,6 +146,7 @@ package intermediate
 //@                          recList(record)[j].(*Unsigned8InfoElement).value != NetworkPolicyRuleActionDrop && recList(record)[j].(*Unsigned8InfoElement).value != NetworkPolicyRuleActionReject)
 //@                    && (forall j in [0, len(recList(record))): isFirst(record, "ingressNetworkPolicyRuleAction", j) ==>
 //@                          recList(record)[j].(*Unsigned8InfoElement).value != NetworkPolicyRuleActionReject) ==> r
+//@   ensures  req: r <==> corrReq(flowType, record)
 //@   noeffect
 
 //@ // podSet(r, name): the record's first element called name holds a non-empty string
@@ -196,11 +209,25 @@ package intermediate
 //@       ((ie(recList(r)[j]).Name == "egressNetworkPolicyRuleAction" || ie(recList(r)[j]).Name == "ingressNetworkPolicyRuleAction" || ie(recList(r)[j]).Name == "flowType") ==> dt(recList(r)[j]) == Unsigned8))
 
 //@ func (a *AggregationProcess) addOrUpdateRecordInMap(flowKey, record, isIPv4) (err)
-//@   requires inv:  aggInv(a) && !a.mutex.held && !a.mutex.rheld && flowKey != nil
+//@   requires inv:  aggInv(a) && aggRetry(a) && !a.mutex.held && !a.mutex.rheld && flowKey != nil
 //@   requires rec:  recNN(record) && flowKinds(record)
 //@   requires recs: forall k: has(a.flowKeyRecordMap, k) ==> recNN(a.flowKeyRecordMap[k].Record) && flowKinds(a.flowKeyRecordMap[k].Record)
 //@   requires newkey: forall i in [0, len(a.expirePriorityQueue)): a.expirePriorityQueue[i].flowKey != flowKey || has(a.flowKeyRecordMap, mapkey(*flowKey))
+//@   let key = mapkey(*flowKey)
 //@   ensures  inv:  aggInv(a)
-//@   ensures  held: err == nil ==> has(a.flowKeyRecordMap, mapkey(*flowKey))
+//@   ensures  retry: aggRetry(a)
+//@   ensures  held: err == nil ==> has(a.flowKeyRecordMap, key)
 //@   ensures  lock: !a.mutex.held
+//@   ensures  others: forall k: k != key ==> has(a.flowKeyRecordMap, k) == old(has(a.flowKeyRecordMap, k)) && a.flowKeyRecordMap[k] == old(a.flowKeyRecordMap[k])
+//@   ensures  otherdl: forall k: k != key && has(a.flowKeyRecordMap, k) ==> itemOf(a, k) == old(itemOf(a, k)) && itemOf(a, k).activeExpireTime == old(itemOf(a, k).activeExpireTime) && itemOf(a, k).inactiveExpireTime == old(itemOf(a, k).inactiveExpireTime)
+//@   ensures  newdl: err == nil && !old(has(a.flowKeyRecordMap, key)) ==> itemOf(a, key).activeExpireTime == $lastNow + a.activeExpiryTimeout && itemOf(a, key).inactiveExpireTime == $lastNow + a.inactiveExpiryTimeout
+//@   ensures  upddl: err == nil && old(has(a.flowKeyRecordMap, key)) ==> a.flowKeyRecordMap[key] == old(a.flowKeyRecordMap[key]) && itemOf(a, key) == old(itemOf(a, key))
+//@                   && itemOf(a, key).activeExpireTime == old(itemOf(a, key).activeExpireTime) && itemOf(a, key).inactiveExpireTime == $lastNow + a.inactiveExpiryTimeout
+//@   ensures  newready: err == nil && !old(has(a.flowKeyRecordMap, key)) ==> (forall ft in [0, 256): old(flowTypeIs(record, ft)) ==>
+//@                   (a.flowKeyRecordMap[key].ReadyToSend <==> !old(corrReq(ft, record))) && a.flowKeyRecordMap[key].waitForReadyToSendRetries == 0 && a.flowKeyRecordMap[key].Record == record
+//@                   && (a.flowKeyRecordMap[key].areCorrelatedFieldsFilled <==> !old(corrReq(ft, record)) && ft != FlowTypeInterNode))
+//@   ensures  updready: err == nil && old(has(a.flowKeyRecordMap, key)) ==> (forall ft in [0, 256): old(flowTypeIs(record, ft)) ==>
+//@                   (a.flowKeyRecordMap[key].ReadyToSend <==> old(a.flowKeyRecordMap[key].ReadyToSend) || (old(corrReq(ft, record)) && !old(sameNode(record, a.flowKeyRecordMap[key].Record)))))
+//@   ensures  filled: err == nil && old(has(a.flowKeyRecordMap, key)) && !old(a.flowKeyRecordMap[key].ReadyToSend) && a.flowKeyRecordMap[key].ReadyToSend ==> a.flowKeyRecordMap[key].areCorrelatedFieldsFilled
 //@   modifies *
+//@   replay expiry
